@@ -92,7 +92,15 @@ def check_tx(spec, ctx):
         return
     # --- CDS
     i, j = spec["cds_i"], spec["cds_j"]
-    C = T[i:j]
+    # the CDS is the ordered list of positions of its blocks; normally the contiguous run T[i:j], but a +1 programmed
+    # frameshift (a base inside an exon skipped by the CDS) makes it a proper sub-sequence of that run
+    C = rm.positions(spec["cds"], strand)
+    gapped = bool(spec.get("cds_gapped"))
+    if not gapped:
+        ctx.eq("generator_consistency", C, T[i:j])
+    else:
+        ctx.nt("cds_with_skipped_base")
+    tindex = {p: t for t, p in enumerate(T)}
     m = len(C)
     cset = set(C)
     ctx.eq("cds_len", tx.cds_size, m)
@@ -116,8 +124,8 @@ def check_tx(spec, ctx):
     for c, p in enumerate(C):
         ctx.eq("cds_pos_to_sequence", tx.cds_pos_to_sequence(c), p)
         ctx.eq("sequence_pos_to_cds", tx.sequence_pos_to_cds(p), c)
-        ctx.eq("cds_pos_to_transcript", tx.cds_pos_to_transcript(c), i + c)
-        ctx.eq("transcript_pos_to_cds", tx.transcript_pos_to_cds(i + c), c)
+        ctx.eq("cds_pos_to_transcript", tx.cds_pos_to_transcript(c), tindex[p])
+        ctx.eq("transcript_pos_to_cds", tx.transcript_pos_to_cds(tindex[p]), c)
         # chromosome -> CDS equals chromosome -> transcript -> CDS
         ctx.eq("path_commutes", tx.transcript_pos_to_cds(tx.sequence_pos_to_transcript(p)), tx.sequence_pos_to_cds(p))
         ctx.eq("sequence_pos_to_amino_acid", tx.cds.sequence_pos_to_amino_acid(p), c // 3)
@@ -172,7 +180,8 @@ def check_tx(spec, ctx):
             ctx.eq("utr3_strand", rm.loc_strand(utr3), strand)
     if utr5 is not None and utr3 is not None:
         allp = rm.loc_positions(utr5) + rm.loc_positions(tx.cds_location) + rm.loc_positions(utr3)
-        ctx.eq("utr_cds_partition_in_order", allp, T)
+        # with a skipped base the three parts cover the exons except that base
+        ctx.eq("utr_cds_partition_in_order", allp, [p for t, p in enumerate(T) if t < i or t >= j or p in cset])
         ctx.eq("utr_cds_disjoint", len(set(allp)), len(allp))
     # with sequence: the three parts spell the transcript
     if g:
@@ -181,13 +190,14 @@ def check_tx(spec, ctx):
         if utr5 is not None and utr3 is not None:
             parts = (str(utr5.extract_sequence()) if len(utr5) else "") + str(tx.cds_location.reset_parent(parent).extract_sequence()) + \
                     (str(utr3.extract_sequence()) if len(utr3) else "")
-            ctx.eq("utr_cds_sequence_concat", parts, mrna)
+            if not gapped:
+                ctx.eq("utr_cds_sequence_concat", parts, mrna)
 
 
 @st.composite
 def strat_tx(draw, tier="quick"):
     big = tier == "thorough"
-    sp = draw(S.transcript_spec(max_exons=5 if not big else 6, max_len=8 if not big else 12, frameshift_prob=20))
+    sp = draw(S.transcript_spec(max_exons=5 if not big else 6, max_len=8 if not big else 12, frameshift_prob=20, cds_gap_prob=6))
     sp["tx_intervals"] = draw(st.lists(st.tuples(st.integers(0, 80), st.integers(0, 80)).map(list), min_size=1, max_size=3))
     sp["chr_intervals"] = draw(st.lists(st.tuples(st.integers(0, 100), st.integers(0, 100)).map(list), min_size=1, max_size=3))
     if draw(st.booleans()):
@@ -211,7 +221,7 @@ PROP = Prop(
     pid="C06",
     legs=[
         Leg("transcript", check_tx, strategy=strat_tx, examples=EX, n_quick=900, n_thorough=9000, shards_quick=4,
-            must_hit=["cds_reaches_3p&multi_exon", "cds_reaches_5p&multi_exon", "cds_on_exon_boundary", "single_exon_full_cds", "minus", "noncoding"],
+            must_hit=["cds_reaches_3p&multi_exon", "cds_reaches_5p&multi_exon", "cds_on_exon_boundary", "single_exon_full_cds", "minus", "noncoding", "cds_with_skipped_base"],
             rule="transcripts (1..5/6 exons, both strands, coding with the CDS a contiguous run [i,j) of the transcript biased to ends and exon boundaries, or non-coding), with/without sequence; every transcript, CDS and chromosome position in span+-1, random intervals in each system, UTRs, introns"),
     ],
     rule="Oracle: PosModel lists T (transcript) and C=T[i:j] (CDS). Non-trivial: multi-exon and (CDS at an end or on an exon boundary or minus strand). "
